@@ -230,7 +230,16 @@ def _issuer_sigs(spec, mat):
 def run_sigs(desc):
   mat = Material(desc['m'], 'c02s')
   sigs, meta = [], []
-  for spec in desc['issuers']:
+  issuers = list(desc['issuers'])
+  if desc.get('follow'):
+    # every patterned issuer is followed, on the same curve, by a healthy one (uniform nonces, valid key)
+    issuers = []
+    for spec in desc['issuers']:
+      issuers.append(spec)
+      if spec['fam'] != 'uniform':
+        issuers.append(dict(spec, fam='uniform', dsel=3 + spec['dsel'] % 2, garbage=0, badkey=0, dup=False,
+                            nsigs=1 + spec['nsigs'] % 3))
+  for spec in issuers:
     ct, pub, ss = _issuer_sigs(spec, mat)
     sigs += ss
     meta += [(ct, pub)] * len(ss)
@@ -240,7 +249,7 @@ def run_sigs(desc):
     meta = [meta[i] for i in order]
   verified = 0
   checks = list(desc['checks'])
-  if desc.get('aim'):
+  if desc.get('aim') or desc.get('follow'):
     # also run the check that matches the first issuer's nonce family
     f = desc['issuers'][0]['fam']
     if f in SIG_CHECKS and f not in checks and f != 'java':
@@ -269,7 +278,8 @@ def run_sigs(desc):
   return {'nt': verified > 0, 'cls': ['sigs check=' + c for c in checks] +
           ['sigs fam=' + f for f in fams] + (['sigs key-verified'] if verified else []) +
           (['sigs garbage'] if any(sp['garbage'] for sp in desc['issuers']) else []) +
-          (['sigs invalid-issuer-key'] if any(sp['badkey'] for sp in desc['issuers']) else []),
+          (['sigs invalid-issuer-key'] if any(sp['badkey'] for sp in desc['issuers']) else []) +
+          (['sigs healthy-follower'] if desc.get('follow') and len(issuers) > len(desc['issuers']) else []),
           'verified': verified, 'nsigs': len(sigs)}
 
 
@@ -288,7 +298,7 @@ def strat_sigs(tier):
       'checks': st.one_of(st.lists(st.sampled_from(cheap), min_size=1, max_size=3, unique=True),
                           st.just(['java']) if tier == 'thorough' else st.lists(
                               st.sampled_from(cheap), min_size=1, max_size=2, unique=True)),
-      'shuffle': st.booleans(), 'aim': st.booleans()})
+      'shuffle': st.booleans(), 'aim': st.booleans(), 'follow': st.sampled_from([False, False, True])})
 
 
 def strat_sigs_java(tier):
